@@ -202,7 +202,8 @@ class same_class:
             except Exception:
                 return False
         if g.cls is None:
-            return g.mod == r.mod
+            # module-level helpers of the same module or of a module of the same package (a helper moved next to its tables)
+            return g.mod == r.mod or g.mod.startswith(r.mod + ".") or r.mod.startswith(g.mod + ".") or g.mod.rsplit(".", 1)[0] == r.mod.rsplit(".", 1)[0]
         return False
 
 
@@ -213,3 +214,74 @@ def anchor_attrs(ctx, cls_name, *attrs):
         ws = [1 for g, n, kind in index(ctx.repo).writers(a) if g.cls is not None and cls_name in g.cls.base_names()]
         if not ws:
             raise AnalysisError(f"anchor vanished: {cls_name}.{a} is never assigned (state attribute renamed or removed?)")
+
+
+MUTATING = {"append", "extend", "add", "pop", "remove", "clear", "update", "setdefault", "discard", "insert", "popitem", "sort", "reverse"}
+COPIERS = {"list", "dict", "set", "tuple", "frozenset", "sorted", "copy.copy", "copy.deepcopy", "bytearray", "bytes"}
+
+
+def shared_table_mutations(repo, names, modules_prefix="bellows"):
+    """[(function, node, description)]: places where a function of the package mutates one of the module-level tables
+    ``names`` - directly, or through a local alias of the table or of one of its elements (``x = TABLE[k]; x += [...]``).
+    A copy (``list(...)``, ``dict(...)``, ``.copy()``, a slice, a display or comprehension) is not an alias."""
+    out = []
+    names = set(names)
+
+    def rooted(e, aliases):
+        """Does the expression evaluate to the table itself or to an object stored in it (no copy in between)?"""
+        while True:
+            if isinstance(e, ast.Name):
+                return e.id in names or e.id in aliases
+            if isinstance(e, ast.Attribute):
+                if e.attr in names and not isinstance(e.ctx, ast.Store):
+                    return True
+                e = e.value
+                continue
+            if isinstance(e, ast.Subscript):
+                if isinstance(e.slice, ast.Slice):
+                    return False  # a slice copies
+                e = e.value
+                continue
+            if isinstance(e, ast.Call) and isinstance(e.func, ast.Attribute) and e.func.attr in ("get", "setdefault", "__getitem__"):
+                e = e.func.value
+                continue
+            if isinstance(e, ast.IfExp):
+                return rooted(e.body, aliases) or rooted(e.orelse, aliases)
+            if isinstance(e, ast.NamedExpr):
+                e = e.value
+                continue
+            return False
+
+    for f in repo.all_functions():
+        if f.mod.startswith("bellows.cli"):
+            continue
+        aliases = set()
+        # two passes so that aliases defined after a loop header are seen
+        for _ in range(2):
+            for n in ast.walk(f.node):
+                if isinstance(n, ast.Assign) and rooted(n.value, aliases):
+                    for t in n.targets:
+                        if isinstance(t, ast.Name):
+                            aliases.add(t.id)
+                elif isinstance(n, ast.AnnAssign) and n.value is not None and rooted(n.value, aliases) and isinstance(n.target, ast.Name):
+                    aliases.add(n.target.id)
+                elif isinstance(n, ast.NamedExpr) and rooted(n.value, aliases) and isinstance(n.target, ast.Name):
+                    aliases.add(n.target.id)
+                elif isinstance(n, (ast.For, ast.AsyncFor)) and rooted(n.iter, aliases) and isinstance(n.target, ast.Name):
+                    aliases.add(n.target.id)  # elements of the table (mutable ones matter only if mutated below)
+        aliases -= names
+        for n in ast.walk(f.node):
+            if isinstance(n, ast.Call) and isinstance(n.func, ast.Attribute) and n.func.attr in MUTATING and rooted(n.func.value, aliases):
+                out.append((f, n, f"calls .{n.func.attr}() on {text(n.func.value)}"))
+            elif isinstance(n, ast.AugAssign) and rooted(n.target, aliases) and not isinstance(n.op, (ast.Mod,)):
+                # += / |= etc. on a list / dict / set modifies the object in place (on numbers it rebinds the local only:
+                # aliases of the *table* are containers, so this is a mutation)
+                out.append((f, n, f"in-place `{text(n)[:60]}`"))
+            elif isinstance(n, (ast.Assign, ast.Delete)):
+                tg = n.targets
+                for t in tg:
+                    if isinstance(t, ast.Subscript) and rooted(t.value, aliases):
+                        out.append((f, n, f"stores into / deletes from {text(t.value)}"))
+            elif isinstance(n, ast.Global) and names & set(n.names):
+                out.append((f, n, "rebinds the table (global statement)"))
+    return out
